@@ -206,15 +206,33 @@ def main():
     from urllib.parse import scheme_chars
 
     pyx = pyx_constants(open(os.path.join(root, "yarl", "_quoting_c.pyx")).read())
-    quoters, unquoters = quoter_instances(root)
-    # cross-check the AST reading against the live pure-Python instances
+    # quoter / unquoter configurations: two independent readings — the AST of _quoters.py (keyword literals) and the live
+    # pure-Python instances.  A behaviour-preserving rewrite may defeat one of them (positional arguments, computed strings,
+    # renamed private attributes); either alone is accepted, and when both succeed they must agree.
     import yarl._quoters as qmod
-    for name, safe, prot, qs, requote in quoters:
-        inst = getattr(qmod, name)
-        assert (inst._safe, inst._protected, inst._qs, inst._requote) == (safe, prot, qs, requote), name
-    for name, ign, uns, qs in unquoters:
-        inst = getattr(qmod, name)
-        assert (inst._ignore, inst._unsafe, inst._qs) == (ign, uns, qs), name
+    try:
+        ast_q, ast_u = quoter_instances(root)
+    except (SystemExit, Exception):
+        ast_q = ast_u = None
+    try:
+        live_q, live_u = [], []
+        names = [n for n in vars(qmod) if n.isupper()]
+        order = {n: i for i, n in enumerate(re.findall(r"^([A-Z_]+)\s*=", open(os.path.join(root, "yarl", "_quoters.py")).read(), re.M))}
+        for n in sorted(names, key=lambda x: order.get(x, 999)):
+            inst = getattr(qmod, n)
+            if type(inst).__name__ == "_Quoter":
+                live_q.append((n, inst._safe, inst._protected, bool(inst._qs), bool(inst._requote)))
+            elif type(inst).__name__ == "_Unquoter":
+                live_u.append((n, inst._ignore, inst._unsafe, bool(inst._qs)))
+    except Exception:
+        live_q = live_u = None
+    if ast_q is not None and live_q is not None:
+        if sorted((a[0], set(a[1]), set(a[2]), a[3], a[4]) for a in ast_q) != sorted((a[0], set(a[1]), set(a[2]), a[3], a[4]) for a in live_q) and \
+                [(a[0],) + tuple(map(repr, a[1:])) for a in ast_q] != [(a[0],) + tuple(map(repr, a[1:])) for a in live_q]:
+            raise SystemExit("quoter configurations: the source text and the live instances disagree")
+    quoters, unquoters = (ast_q, ast_u) if ast_q is not None else (live_q, live_u)
+    if quoters is None:
+        raise SystemExit("quoter configurations could not be read from the source or from the live instances")
 
     L = []
     w = L.append
